@@ -185,6 +185,49 @@ pub fn run(ctx: &Ctx) -> i32 {
     *acc.spaces.entry("a/strings-x-positions".into()).or_default() = acc.evaluations;
     acc.gate("strings-enumerated");
 
+    // (a2) character sweep: every non-control character of the Basic Multilingual Plane (thorough:
+    //      planes 0-3) at several places of a token, in each of the six argument positions
+    {
+        const SHAPES: [&str; 14] = ["{}", "1{}", "{}1", "x{}f", "x1{}", "r{}", "r0{}", "{}0", "lab{}", "{}lab", "^{}", "^1{}", "#{}5", "lab+{}"];
+        let top: usize = ctx.tier.pick(0x1_0000, 0x4_0000);
+        let parts = pooled(None, top / 256, 1, Acc::new, |acc, b| {
+            for cp in (b * 256)..(b * 256 + 256) {
+                let Some(ch) = char::from_u32(cp as u32) else { continue };
+                // the plain space separates arguments and `;` separates commands (split off by the
+                // reader before a command is parsed): neither can be part of one argument
+                if ch.is_control() || ch == ' ' || ch == ';' {
+                    continue;
+                }
+                for shape in SHAPES {
+                    let tok = shape.replace("{}", &ch.to_string());
+                    for c in 0..6 {
+                        acc.evaluations += 1;
+                        match judge_parse(c, &tok) {
+                            Ok(()) => {
+                                match expect(c, &tok) {
+                                    Ok(Some(_)) => {
+                                        acc.nontrivial += 1;
+                                        *acc.outcomes.entry(format!("a2/{}/accepted-with-documented-value", CTX_NAMES[c])).or_default() += 1;
+                                    }
+                                    Ok(None) => *acc.outcomes.entry(format!("a2/{}/not-judged", CTX_NAMES[c])).or_default() += 1,
+                                    Err(()) => *acc.outcomes.entry(format!("a2/{}/rejected", CTX_NAMES[c])).or_default() += 1,
+                                }
+                            }
+                            Err((sig, what)) => {
+                                acc.outcome(format!("violation:{sig}"));
+                                acc.violation(format!("C14/{sig}/character-sweep"), what, json!({"line": line(c, &tok), "context": c, "token": tok}));
+                            }
+                        }
+                    }
+                }
+            }
+        });
+        for p in parts {
+            acc.merge(p);
+        }
+        acc.gate("characters-swept");
+    }
+
     // (b) generative direction: every 16-bit value in every documented spelling
     let parts = pooled(None, 65536 + 32768, 256, Acc::new, |acc, i| {
         let v: i64 = if i < 65536 { i as i64 } else { -((i - 65536) as i64) - 1 };
@@ -473,6 +516,57 @@ pub fn run(ctx: &Ctx) -> i32 {
         }
     }
 
+    // (e2) amounts: scripts of hundreds and thousands of commands through each transport
+    {
+        let mut longs: Vec<(usize, &'static str, Vec<String>, Vec<u8>)> = Vec::new();
+        for n in [300usize, 5000, 20000] {
+            let cmds: Vec<String> = (1..=n).map(|i| format!("move r1 #{i}")).chain(["print r1".to_string()]).collect();
+            let base = vec!["debug".to_string(), "t.asm".into(), "--minimal".into(), "-f".into(), "stack".into()];
+            if n <= 5000 {
+                let mut a = base.clone();
+                a.extend(["--command".to_string(), cmds.join(";")]);
+                longs.push((n, "command-semicolons", a, Vec::new()));
+                let mut a = base.clone();
+                a.extend(["--command".to_string(), cmds.join("\n")]);
+                longs.push((n, "command-newlines", a, Vec::new()));
+                let mut a = base.clone();
+                a.extend(["--command".to_string(), cmds[..n / 2].join(";")]);
+                longs.push((n, "half-command-half-stdin", a, cmds[n / 2..].join("\n").into_bytes()));
+            }
+            longs.push((n, "stdin-newlines", base.clone(), (cmds.join("\n") + "\n").into_bytes()));
+            longs.push((n, "stdin-one-line", base.clone(), cmds.join(";").into_bytes()));
+        }
+        let runs = pooled(None, longs.len(), 1, Runs::default, |r: &mut Runs, i| {
+            let (n, _, args, input) = &longs[i];
+            let a: Vec<&str> = args.iter().map(|s| s.as_str()).collect();
+            let run = lace.run_timeout(&a, input, &[], None, 120);
+            r.0.push((i, *n, run.status, run.out(), run.err()));
+        });
+        let mut all: Vec<(usize, usize, i32, String, String)> = runs.into_iter().flat_map(|r| r.0).collect();
+        all.sort_by_key(|r| r.0);
+        for n in [300usize, 5000, 20000] {
+            let group: Vec<&(usize, usize, i32, String, String)> = all.iter().filter(|r| r.1 == n).collect();
+            let Some(first) = group.first() else { continue };
+            for g in &group {
+                acc.eval("e2/long-scripts");
+                let how = longs[g.0].1;
+                let case = json!({"long_script": true, "commands": n, "transport": how});
+                let want = format!("x{:04x}", n as u16);
+                if g.2 == 101 || g.2 >= 1000 {
+                    acc.violation("C14/long-script/crash", format!("script of {n} commands through {how}: exit status {}", g.2), case);
+                } else if !g.3.lines().chain(g.4.lines()).any(|l| l.trim() == want) {
+                    acc.violation("C14/long-script/last-command-without-effect", format!("script of {n} `move r1` commands and `print r1` through {how}: {want} is not printed (exit status {}, last lines {:?})", g.2, g.4.lines().rev().take(3).collect::<Vec<_>>()), case);
+                } else if g.2 != first.2 || g.3 != first.3 || g.4 != first.4 {
+                    let what = if g.2 != first.2 { "exit-status" } else if g.3 != first.3 { "stdout" } else { "stderr" };
+                    acc.violation(format!("C14/long-script/{what}-differs"), format!("script of {n} commands: {how} differs from {} in {what}", longs[first.0].1), case);
+                } else {
+                    acc.nontrivial();
+                    acc.gate("long-scripts-agree");
+                }
+            }
+        }
+    }
+
     // labelled sampling supplement: longer random strings with multi-byte characters (not part of the exhaustive claim)
     let mut x = ctx.seed.wrapping_mul(6364136223846793005).wrapping_add(1442695040888963407);
     let pool: Vec<char> = SIGMA.iter().copied().chain(['𝄞', ' ', 'L', 'R', 'X', '.', '@']).collect();
@@ -500,9 +594,9 @@ pub fn run(ctx: &Ctx) -> i32 {
         ctx,
         acc,
         Level { category: "model_checking", bfs: None },
-        "bounded-exhaustive enumeration: (a) every string of length 1..=5 (quick) / 6 (thorough) over the 19-character alphabet {+ - # x o b 0 1 7 9 a f g ^ r _ é ı Ų} in each of six argument positions (integer value, step count, location of print / move, address of goto / break add), parsed by the real command parser and by the reference recogniser of the documented grammar: same acceptance and, when accepted, the same command with the same values (Debug rendering); (b) every value 0..65535 and -1..-32768 in every documented spelling (sign before or after the prefix, optional leading zero, 4 radices, letter case, leading zeros) as integer, as address and as PC offset, plus the i32 boundary and the values MAX/radix (+1) in each radix, bare and followed by label characters or an offset, and tokens of 250-260 and 510-514 digits; (c) every name documented in help.txt in three letter cases, every name glued to a rest by a white-space character other than the space (rejected), and every word of <= 3 letters with four argument shapes (totality, case-insensitivity); (d) every token of length <= 3 (thorough 4, stride 5) through the real debugger (`move r1 T`, `goto T`, `break add T`) against the reference debugger: accepted tokens have exactly the documented effect, rejected ones none; (e) 18 scripts (incl. 2-, 3- and 4-byte characters) x every split point between --command and stdin x ';'/newline per gap x trailing separator through the real binary: identical exit status, stdout and stderr. A seeded random supplement of longer strings with multi-byte characters is run and reported separately (sampling, not part of the exhaustive claim). non-trivial = accepted-and-equal parses + agreeing sessions / variants",
+        "bounded-exhaustive enumeration: (a) every string of length 1..=5 (quick) / 6 (thorough) over the 19-character alphabet {+ - # x o b 0 1 7 9 a f g ^ r _ é ı Ų} in each of six argument positions (integer value, step count, location of print / move, address of goto / break add), (a2) every non-control character of the Basic Multilingual Plane (thorough: planes 0-3; the argument separator space and the command separator `;` excepted) at 14 places of a token ({c}, 1{c}, {c}1, x{c}f, x1{c}, r{c}, r0{c}, {c}0, lab{c}, {c}lab, ^{c}, ^1{c}, #{c}5, lab+{c}) in the same six positions, parsed by the real command parser and by the reference recogniser of the documented grammar: same acceptance and, when accepted, the same command with the same values (Debug rendering); (b) every value 0..65535 and -1..-32768 in every documented spelling (sign before or after the prefix, optional leading zero, 4 radices, letter case, leading zeros) as integer, as address and as PC offset, plus the i32 boundary and the values MAX/radix (+1) in each radix, bare and followed by label characters or an offset, and tokens of 250-260 and 510-514 digits; (c) every name documented in help.txt in three letter cases, every name glued to a rest by a white-space character other than the space (rejected), and every word of <= 3 letters with four argument shapes (totality, case-insensitivity); (d) every token of length <= 3 (thorough 4, stride 5) through the real debugger (`move r1 T`, `goto T`, `break add T`) against the reference debugger: accepted tokens have exactly the documented effect, rejected ones none; (e) 18 scripts (incl. 2-, 3- and 4-byte characters) x every split point between --command and stdin x ';'/newline per gap x trailing separator through the real binary: identical exit status, stdout and stderr; (e2) scripts of 300, 5000 and 20000 `move r1 #i` commands and a final `print r1` through five transports (--command with `;` / with newlines, half and half, stdin lines, stdin one line): the last value is printed, and all transports agree. A seeded random supplement of longer strings with multi-byte characters is run and reported separately (sampling, not part of the exhaustive claim). non-trivial = accepted-and-equal parses + agreeing sessions / variants",
         true,
-        &["strings-enumerated", "transport-variants-agree"],
+        &["strings-enumerated", "transport-variants-agree", "characters-swept", "long-scripts-agree"],
         &["reference grammar = refmodel::cmdlang, validated against the repository's own parser tests by `lacemc selftest`", "negative step counts are not judged (help.txt says Integer, a code comment says non-positive means 1, the code casts to u16)"],
         json!({"max_len": max_len, "random_supplement_tokens": sampled, "transport_variants": variants.len()}),
     )
